@@ -106,7 +106,14 @@ SecpSMT.fneg_sq SecpSMT
 SecpSMT.poly_nonzero SecpSMT
 SecpSMT.sq_zero SecpSMT
 SecpSMT.firstnz_step SecpSMT
+SecpSMT.neg_zero_iff SecpSMT
+SecpSMT.chord_on_curve SecpSMT
+SecpSMT.sswu_on_curve SecpSMT2
+SecpSMT.iso_valid SecpSMT2
 "
+# Lemma lines tagged `{lean: ASSUMED ...}` in the contract files: intentionally NOT proved.  They are never listed
+# under "theorems" (so nothing can read them as ok); stamp.json only names them under "assumed".
+ASSUMED="SecpSMT.iso_hom_chord"
 ALLOWED_AXIOMS=" propext Classical.choice Quot.sound "
 
 elapsed() { awk -v a="$1" -v b="$2" 'BEGIN{printf "%.1f", b-a}'; }
@@ -262,6 +269,8 @@ TMP="$B/stamp.json.tmp"
   echo "  \"lean_version\": $(jstr "$LEANVER"),"
   echo "  \"recheck\": $([ $RECHECK = 1 ] && echo true || echo false),"
   echo "  \"total_seconds\": $(elapsed "$T0" "$T1"),"
+  asj=""; for a in $ASSUMED; do asj="$asj${asj:+, }\"$a\""; done
+  echo "  \"assumed\": [$asj],"
   echo "  \"files\": {"
   n=0
   for m in "${ORDER[@]}"; do
